@@ -14,7 +14,7 @@ from _griffe.collections import ModulesCollection
 from _griffe.exceptions import AliasResolutionError, CyclicAliasError
 from _griffe.loader import GriffeLoader
 from _griffe.models import Alias, Class, Function, Module
-from vlib.ob import TIER, cover, fail, obligation, tiered
+from vlib.ob import TIER, cover, fail, obligation, tiered, prop
 from vlib.stubs import plain_error_messages, silence_logging
 
 STUBS = silence_logging() + plain_error_messages()
@@ -173,7 +173,7 @@ CLS_VARIANTS = tiered((False,), (False, True))
     pre=lambda m1, n1, m2, n2, m3, n3, cls_member: _pre_targets(m1, n1, m2, n2, m3, n3) and cls_member in CLS_VARIANTS,
     shards=_shards_by_first, timeout=tiered(200, 600),
     drives=[GriffeLoader.resolve_aliases, GriffeLoader.resolve_module_aliases, GriffeLoader.expand_wildcards, Alias.resolve_target,
-            Alias._resolve_target, Alias.final_target.fget, Alias.target.fget, ModulesCollection.get_member],
+            Alias._resolve_target, prop(Alias, "final_target"), prop(Alias, "target"), ModulesCollection.get_member],
     bounds={"modules": "m, n loaded; q not loaded", "aliases": 3, "target": "<mod>.<name>, mod in {m,n,q}, name in {x,y,z} (z undefined): 729 graphs", "member shapes": tiered("m.y is a function", "m.y is a function or a class with member x"), "wildcards": 0},
     value_symbolic=["m1,n1,m2,n2,m3,n3: 1-char strings forming the three alias target paths", "cls_member: whether m.y is a class with member x"],
     stubs=STUBS + ["ModuleFinder search path = /nonexistent (no disk access)"],
